@@ -168,3 +168,32 @@ def lemma_proper_rotation(ctx):
     hyp = [G[k][l] == (1 if k == l else 0) for k in range(3) for l in range(3)]
     out.append(("Q^T Q = I => u^T (Q^T Q) u = |u|^2", hyp, sum(u[k] * u[l] * G[k][l] for k in range(3) for l in range(3)) == sum(x * x for x in u)))
     return out
+
+
+def lemma_step_length_preserved(ctx):
+    """C05: a wrapped step keeps its length under the minimum image convention.
+    Per component, with d = v_i*step, |d| <= L/2, new = last + d - k*L (k integer: lemma wrap = point - k*box),
+    the minimum-image component of (new, last) equals |d|.  Summing squares gives step^2 |v|^2 = step^2 for unit v
+    (second lemma, pure real arithmetic)."""
+    from pyvc.ops import Facts
+    facts = Facts()
+    d, L = z3.Reals("d L")
+    k = z3.Int("k")
+    t0 = z3.Real("t0")        # d / L
+    hyps = [L > 0, d <= L / 2, -d <= L / 2, t0 * L == d]
+
+    def m(u):
+        f1, f2 = ops.frac_term(u, facts), ops.frac_term(-u, facts)
+        return z3.If(f2 < f1, f2, f1)
+    m(t0)         # creates frac(t0), frac(-t0) so that the integer-shift schema links them to the shifted terms
+    goal = L * m(t0 - z3.ToReal(k)) == z3.If(d >= 0, d, -d)
+    out = [("min-image component of a wrapped step equals |d|", hyps, goal)]
+    return out, facts
+
+
+def lemma_unit_step_norm(ctx):
+    v = z3.Reals("v0 v1 v2")
+    s = z3.Real("s")
+    hyps = [sum(x * x for x in v) == 1, s >= 0]
+    comps = [z3.If(x * s >= 0, x * s, -(x * s)) for x in v]
+    return [("sum of squared components = step^2 for a unit vector", hyps, sum(c * c for c in comps) == s * s)]
